@@ -1195,6 +1195,148 @@ fn run_cfb_len(c: &CfbLen) -> Outcome {
     }
 }
 
+// ---- iterators over damaged inputs come to an end
+
+#[derive(Clone, Debug)]
+struct ManyCase {
+    /// index of the artefact
+    art: usize,
+    /// 0: the artefact cut at `pos`; 1: the octet at `pos` replaced by '!'; 2: the artefact cut at
+    /// `pos` and followed by the tail of another block type; 3: cut at `pos`, 40 octets of garbage
+    how: u8,
+    pos: usize,
+}
+
+fn many_artefacts() -> &'static Vec<(String, Vec<u8>)> {
+    static A: std::sync::OnceLock<Vec<(String, Vec<u8>)>> = std::sync::OnceLock::new();
+    A.get_or_init(|| {
+        let c1 = common::cert(KeyKind::Ed25519V4, 1);
+        let c2 = common::cert(KeyKind::Ed25519V6, 1);
+        let mut v = Vec::new();
+        let p1 = c1.to_public_key();
+        let p2 = c2.to_public_key();
+        let ring_bin = [p1.to_bytes().expect("ser"), p2.to_bytes().expect("ser")].concat();
+        let armor = |typ: pgp::armor::BlockType, data: &[u8]| -> Vec<u8> {
+            let mut out = Vec::new();
+            pgp::armor::write(&RawBytes(data.to_vec()), typ, &mut out, None, true).expect("armor");
+            out
+        };
+        v.push(("armored public key ring (2 certificates)".to_string(), armor(pgp::armor::BlockType::PublicKey, &ring_bin)));
+        v.push(("armored secret key".to_string(), armor(pgp::armor::BlockType::PrivateKey, &c1.to_bytes().expect("ser"))));
+        let sig = DetachedSignature::sign_binary_data(crate::engine::rng(1), &c1.primary_key, &Password::empty(), pgp::crypto::hash::HashAlgorithm::Sha256, &b"x"[..]).expect("sign");
+        let sig_bin = [sig.to_bytes().expect("ser"), sig.to_bytes().expect("ser")].concat();
+        v.push(("armored signature block (2 signatures)".to_string(), armor(pgp::armor::BlockType::Signature, &sig_bin)));
+        v.push(("binary public key ring (2 certificates)".to_string(), ring_bin));
+        v.push(("binary signatures (2)".to_string(), sig_bin));
+        v
+    })
+}
+
+struct RawBytes(Vec<u8>);
+impl pgp::ser::Serialize for RawBytes {
+    fn to_writer<W: std::io::Write>(&self, w: &mut W) -> pgp::errors::Result<()> {
+        w.write_all(&self.0)?;
+        Ok(())
+    }
+    fn write_len(&self) -> usize {
+        self.0.len()
+    }
+}
+
+fn many_cases(_tier: Tier) -> &'static Vec<ManyCase> {
+    static C: std::sync::OnceLock<Vec<ManyCase>> = std::sync::OnceLock::new();
+    C.get_or_init(|| {
+        let mut v = Vec::new();
+        for (art, (_, bytes)) in many_artefacts().iter().enumerate() {
+            for pos in 0..=bytes.len() {
+                for how in 0..4u8 {
+                    if how == 1 && pos == bytes.len() {
+                        continue;
+                    }
+                    v.push(ManyCase { art, how, pos });
+                }
+            }
+        }
+        v
+    })
+}
+
+fn run_many(c: &ManyCase) -> Outcome {
+    let (name, bytes) = &many_artefacts()[c.art];
+    let mut x = bytes[..c.pos].to_vec();
+    match c.how {
+        0 => {}
+        1 => {
+            x = bytes.clone();
+            x[c.pos] = b'!';
+        }
+        2 => x.extend_from_slice(b"\n=AAAA\n-----END PGP MESSAGE-----\n"),
+        _ => x.extend((0..40u8).map(|i| i.wrapping_mul(41) | 0x21)),
+    }
+    // an iterator over n octets has at most n + 1 items to give
+    let cap = x.len() + 8;
+    let mut endless: Option<&'static str> = None;
+    let r = crate::engine::guarded(|| {
+        macro_rules! exhaust {
+            ($name:expr, $it:expr) => {{
+                let mut n = 0usize;
+                for _ in $it {
+                    n += 1;
+                    if n > cap {
+                        endless = endless.or(Some($name));
+                        break;
+                    }
+                }
+            }};
+        }
+        exhaust!("PacketParser", PacketParser::new(&x[..]));
+        exhaust!("PacketParser<Dearmor>", PacketParser::new(BufReader::new(Dearmor::new(BufReader::new(&x[..])))));
+        if let Ok(it) = SignedPublicKey::from_bytes_many(&x[..]) {
+            exhaust!("SignedPublicKey::from_bytes_many", it);
+        }
+        if let Ok(it) = SignedSecretKey::from_bytes_many(&x[..]) {
+            exhaust!("SignedSecretKey::from_bytes_many", it);
+        }
+        if let Ok(it) = DetachedSignature::from_bytes_many(&x[..]) {
+            exhaust!("DetachedSignature::from_bytes_many", it);
+        }
+        if let Ok((it, _)) = SignedPublicKey::from_armor_many(&x[..]) {
+            exhaust!("SignedPublicKey::from_armor_many", it);
+        }
+        if let Ok((it, _)) = SignedSecretKey::from_armor_many(&x[..]) {
+            exhaust!("SignedSecretKey::from_armor_many", it);
+        }
+        if let Ok((it, _)) = DetachedSignature::from_armor_many(&x[..]) {
+            exhaust!("DetachedSignature::from_armor_many", it);
+        }
+        if let Ok(text) = std::str::from_utf8(&x) {
+            if let Ok((it, _)) = SignedPublicKey::from_string_many(text) {
+                exhaust!("SignedPublicKey::from_string_many", it);
+            }
+        }
+        if let Ok((it, _)) = SignedPublicKey::from_reader_many(&x[..]) {
+            exhaust!("SignedPublicKey::from_reader_many", it);
+        }
+        if let Ok((it, _)) = pgp::composed::PublicOrSecret::from_reader_many(&x[..]) {
+            exhaust!("PublicOrSecret::from_reader_many", it);
+        }
+        if let Ok((it, _)) = pgp::composed::PublicOrSecret::from_armor_many(&x[..]) {
+            exhaust!("PublicOrSecret::from_armor_many", it);
+        }
+    });
+    let what = format!("{name}, {} at octet {} of {}", ["cut", "one octet replaced by '!'", "cut and closed with the tail of another block type", "cut and followed by 40 octets of garbage"][c.how as usize], c.pos, bytes.len());
+    match r {
+        Err((loc, msg)) => Outcome::bad(
+            format!("C04:panic@{}:many-iterators", crate::engine::loc_file(&loc)),
+            format!("{what}: panic at {loc}: {}", msg.chars().take(120).collect::<String>()),
+        ),
+        Ok(()) => match endless {
+            Some(it) => Outcome::bad(format!("C04:iterator-never-ends:{it}"), format!("{what}: more than {cap} items from an input of {} octets", x.len())),
+            None => Outcome::ok("ends"),
+        },
+    }
+}
+
 // ---- hostile data under a text-mode signature
 
 #[derive(Clone, Debug)]
@@ -1609,6 +1751,7 @@ fn space_total(tier: Tier, space: &str) -> u64 {
         "signature_mpi_lengths" => sig_len_cases(tier).len() as u64,
         "text_signature_data" => text_data_cases(tier).len() as u64,
         "cfb_container_lengths" => cfb_len_cases(tier).len() as u64,
+        "many_iterators_end" => many_cases(tier).len() as u64,
         _ => 0,
     }
 }
@@ -1633,6 +1776,7 @@ fn case_json(tier: Tier, space: &str, idx: u64) -> Value {
         "signature_mpi_lengths" => json!({"index": idx, "case": format!("{:?}", sig_len_cases(tier)[idx as usize])}),
         "text_signature_data" => json!({"index": idx, "case": format!("{:?}", text_data_cases(tier)[idx as usize])}),
         "cfb_container_lengths" => json!({"index": idx, "case": format!("{:?}", cfb_len_cases(tier)[idx as usize])}),
+        "many_iterators_end" => json!({"index": idx, "case": format!("{:?}", many_cases(tier)[idx as usize])}),
         _ => json!({"index": idx}),
     }
 }
@@ -1660,6 +1804,7 @@ fn run_case(tier: Tier, space: &str, idx: u64) -> Outcome {
         "signature_mpi_lengths" => run_sig_len(&sig_len_cases(tier)[idx as usize]),
         "text_signature_data" => run_text_data(&text_data_cases(tier)[idx as usize]),
         "cfb_container_lengths" => run_cfb_len(&cfb_len_cases(tier)[idx as usize]),
+        "many_iterators_end" => run_many(&many_cases(tier)[idx as usize]),
         _ => Outcome::trivial("unknown space"),
     }
 }
@@ -1674,7 +1819,8 @@ pub fn worker(tier: Tier, space: &str, start: u64, end: u64) -> Option<Value> {
 
 pub fn check(ctx: &Ctx) {
     let tier = ctx.tier;
-    let spaces: [(&str, &str, u64); 13] = [
+    let spaces: [(&str, &str, u64); 14] = [
+        ("many_iterators_end", "armored key rings / secret keys / signature blocks and their binary forms, cut at EVERY offset, with one octet replaced at every offset, closed with the tail of another block type, or followed by garbage: every iterator over them (PacketParser, PacketParser over Dearmor, from_bytes_many / from_armor_many / from_string_many / from_reader_many of SignedPublicKey, SignedSecretKey, DetachedSignature, PublicOrSecret) is run to its end - it must end within input length + 8 items", 2_000),
         ("cfb_container_lengths", "valid SEIPDv1 and legacy SED containers (made by the reference model, 11 ciphers, literal of 0 / 5 (thorough 40) octets) cut to EVERY length 0..full - inside the CFB prefix, inside the data, inside the MDC - x read mode {default, Streaming, CheckFirst with a 16-octet limit}, through decrypt_the_ring with the session key + drain, and through stream_decryptor_protected", 2_000),
         ("signature_mpi_lengths", "signatures with a CORRECT digest prefix and issuer (so that verification reaches the public-key code) whose signature MPIs have every length 0..36 (P-384: 52, P-521: 70) in all (r, s) pairs (quick: full cross product around the field size, the axes elsewhere) for EdDSA-legacy, ECDSA P-256 v4/v6, P-384, P-521, secp256k1, and RSA with 0..260 octets: Signature::verify and the inline message path", 2_000),
         ("ecdh_padding", "ECDH PKESK (P-256 v4/v6, Curve25519-legacy) made by the reference model (own ephemeral key, RFC 9580 11.5 KDF, RFC 3394 wrap) around an attacker-chosen plaintext: every length 8..48 (multiples of 8) x every final (padding) octet 0..255 x uniform / patterned fill, through DecryptionKey::decrypt v3 / v6", 1_000),
